@@ -392,11 +392,10 @@ def vmap_lane_randomness(ctx, rule="SHAPE-lanes"):
     if not is_call(r, name=PJ + "SamplerConfig"):
         ck.fail("returns a SamplerConfig", f"found {short(r, ev)}")
     else:
-        kw = dict(r[3])
         for fld in ("keyful_sampler", "name", "support", "primitive"):
-            ck.eq(f"{fld} copied", kw.get(fld, NONE), ("attr", SELF, fld))
-        ck.eq("sample_shape replaced", kw.get("sample_shape", NONE), ("param", "new_sample_shape"))
-        pp = kw.get("primitive_params", NONE)
+            ck.eq(f"{fld} copied", ev.ctor_field(r, fld) or NONE, ("attr", SELF, fld))
+        ck.eq("sample_shape replaced", ev.ctor_field(r, "sample_shape") or NONE, ("param", "new_sample_shape"))
+        pp = ev.ctor_field(r, "primitive_params") or NONE
         if pp not in (("attr", SELF, "primitive_params"), call(N("builtins.dict"), ("attr", SELF, "primitive_params"))):
             ck.fail("primitive_params copied (carries adev_prim)", f"found {short(pp, ev)}")
     ck.done()
@@ -767,3 +766,60 @@ def seed_fallthrough(ctx, rule="EXH-seed-fallthrough"):
                 "higher-order primitives other than cond/scan (custom_jvp_call, custom_vjp_call, checkpoint/remat, closed_call, pjit evaluated eagerly) are re-bound as is: "
                 "a sampling site inside them is evaluated by the primitive's impl with the process-global counter key, silently, in an eagerly executed seed(f); "
                 "input: seed(f)(key) with f sampling inside jax.checkpoint or inside a custom_jvp function", ctx.loc(mod, orelse[0] if orelse else loop))
+
+
+def closure_in(t):
+    """The local function wrapped by functools.wraps(f)(<closure>) or returned directly."""
+    if t[0] == "closure":
+        return t
+    if is_call(t) and t[2] and t[2][0][0] == "closure":
+        return t[2][0]
+    return None
+
+
+def seed_wrapper_plumbing(ctx, rule="ROLE-seed-plumbing"):
+    """seed(f)(key, *args, **kwargs) = Seed(key).eval(f, *args, **kwargs); eval stages f on exactly those arguments and
+    interprets the staged Jaxpr with its literals and flat arguments, then rebuilds the output tree."""
+    ev = mk_ev(ctx)
+    ev.inline_methods_on_ctor = False
+    s = summarize(ctx, ev, PJ + "seed")
+    clo = closure_in(s.ret)
+    F = ("param", "f")
+    if clo is None:
+        ctx.bad(rule, "pjax.seed", "returns the keyed wrapper", f"found {short(s.ret, ev)}", func_loc(ctx, PJ + "seed"))
+        return
+    K, A, KW = ("param", "k_"), ("param", "a_"), ("param", "kw_")
+    body = ev.apply_closure(clo, (K, ("star", A)), ((None, KW),))
+    want = ("call", ("attr", call(N(PJ + "Seed"), K), "eval"), (F, ("star", A)), ((None, KW),))
+    if body == want:
+        ctx.ok(rule, "pjax.seed.wrapped", "Seed(key).eval(f, *args, **kwargs)")
+    else:
+        ctx.bad(rule, "pjax.seed.wrapped", "Seed(key).eval(f, *args, **kwargs)", f"found {short(body, ev, 200)}", func_loc(ctx, PJ + "seed"))
+    s = summarize(ctx, ev, PJ + "Seed.eval")
+    FN, AR, KWA = ("param", "fn"), ("param", "args"), ("param", "kwargs")
+    st = ("call", call(N(PJ + "stage"), FN), (("star", AR),), ((None, KWA),))
+    cj, meta = ("idx", st, C(0)), ("idx", st, C(1))
+    want = call(N("jax.tree_util.tree_unflatten"), ("call", ("idx", meta, C(2)), (), ()),
+                ("call", ("attr", SELF, "eval_jaxpr_seed"), (("attr", cj, "jaxpr"), ("attr", cj, "literals"), ("idx", meta, C(0))), ()))
+    if s.ret == want:
+        ctx.ok(rule, "pjax.Seed.eval", "stage(fn)(*args, **kwargs) → eval_jaxpr_seed(jaxpr, literals, flat args) → unflatten with the staged out-tree")
+    else:
+        ctx.bad(rule, "pjax.Seed.eval", "stage on the call's own arguments, interpret, unflatten", f"found {short(s.ret, ev, 300)}", func_loc(ctx, PJ + "Seed.eval"))
+
+
+def gfi_vmap_repeat(ctx, rule="ROLE-vmap-constructor"):
+    ev = mk_ev(ctx)
+    s = summarize(ctx, ev, CORE + "GFI.vmap")
+    cst = lambda n: call(N(CORE + "const"), ("param", n))
+    want = call(N(CORE + "Vmap"), SELF, cst("in_axes"), cst("axis_size"), cst("axis_name"), cst("spmd_axis_name"))
+    if s.ret == want:
+        ctx.ok(rule, "core.GFI.vmap")
+    else:
+        ctx.bad(rule, "core.GFI.vmap", "Vmap(self, const(in_axes), const(axis_size), const(axis_name), const(spmd_axis_name))", f"found {short(s.ret, ev, 200)}", func_loc(ctx, CORE + "GFI.vmap"))
+    s = summarize(ctx, ev, CORE + "GFI.repeat")
+    want = ("call", ("attr", SELF, "vmap"), (), (("in_axes", NONE), ("axis_size", ("param", "n"))))
+    alt = ("call", ("attr", SELF, "vmap"), (NONE, ("param", "n")), ())
+    if s.ret in (want, alt):
+        ctx.ok(rule, "core.GFI.repeat", "vmap(in_axes=None, axis_size=n): n independent draws with shared arguments")
+    else:
+        ctx.bad(rule, "core.GFI.repeat", "vmap(in_axes=None, axis_size=n)", f"found {short(s.ret, ev, 200)}", func_loc(ctx, CORE + "GFI.repeat"))
